@@ -170,6 +170,30 @@ class PubSubRun:
             a.ctl_dest = (ch.choose("ctl.dest.mod", [0, 10, 77, 200, 201, 250, -3, 32767]),
                           ch.choose("ctl.dest.host", [0, 1, 5, 6, 9, -1]))
             self.res.probes["control_frame_with_destination"] += 1
+        if ch.flag("ctl.cut", 1, 14):
+            # the sender dies inside the header of a control frame: nothing was received, nothing is acknowledged
+            mt = {"sub": C.MT_SUBSCRIBE, "unsub": C.MT_UNSUBSCRIBE, "pause": C.MT_PAUSE_SUBSCRIPTION,
+                  "resume": C.MT_RESUME_SUBSCRIPTION}[kind]
+            raw = a.frame(mt, C.pack_sub(t))
+            k = ch.choose("ctl.cut.k", [4, 8, 31, 36, 40, 47])
+            a.flush_tail()
+            a.send_partial(raw, k)
+            a.leave(ch.choose("ctl.cut.way", ["fin", "fin", "rst"]))
+            a.ctl_dest = (0, 0)
+            self.res.probes["control_header_cut"] += 1
+            self.t(f"{a.name} dies after {k} bytes of a {kind} header")
+            return
+        if ch.flag("ctl.short", 1, 14):
+            # a control frame whose data section is shorter than its definition (a header-only SUBSCRIBE is what
+            # Client.send_signal(MT_SUBSCRIBE) produces): it is a control frame all the same, handled and acknowledged
+            k = ch.choose("ctl.short.k", [0, 0, 1, 3])
+            mt = {"sub": C.MT_SUBSCRIBE, "unsub": C.MT_UNSUBSCRIBE, "pause": C.MT_PAUSE_SUBSCRIPTION,
+                  "resume": C.MT_RESUME_SUBSCRIPTION}[kind]
+            a.send(mt, C.pack_sub(t)[:k])
+            a.ctl_dest = (0, 0)
+            self.res.probes["short_control_frame"] += 1
+            self.t(f"{a.name} {kind} with only {k} payload bytes")
+            return
         try:
             {"sub": a.subscribe, "unsub": a.unsubscribe, "pause": a.pause, "resume": a.resume}[kind](t)
         finally:
